@@ -344,7 +344,9 @@ fn gen_prog(rng: &mut TestRng, i: usize, which: Which) -> ChainProg {
         }
         nestings.extend(g.nest_log.iter().cloned());
         nest_pairs.extend(g.nest_pairs.iter().cloned());
-        let let_name = if rb(g.rng, if which == Which::C12 || shadow { 0.85 } else { 0.25 }) { Some((format!("nm{}", b), rb(g.rng, 0.3))) } else { None };
+        // (C12: every fifth name is a raw identifier)
+        let raw = which == Which::C12 && rb(g.rng, 0.2);
+        let let_name = if rb(g.rng, if which == Which::C12 || shadow { 0.85 } else { 0.25 }) { Some((format!("{}nm{}", if raw { "r#" } else { "" }, b), rb(g.rng, 0.3))) } else { None };
         branches.push(ChainBranch { locals, let_name, init_ty: init_ty.clone(), init_text: init_text.clone(), ops, fin });
     }
     // C17: a handler whose body is a nested macro invocation over the results
@@ -455,7 +457,9 @@ fn gen_prog(rng: &mut TestRng, i: usize, which: Which) -> ChainProg {
     }
     // C19: the non-spawning async macros with a (pass-through) custom joiner must not add a Send bound either
     let options = if which == Which::C19 && kind.is_async && branches.len() >= 2 && rb(rng, 0.4) { format!("custom_joiner(jvrt::{}!) ", if kind.is_try { "jv_ptry" } else { "jv_pjoin" }) } else { String::new() };
-    ChainProg { fam, mac: mac.to_string(), branches, nestings, handler, options, nest_pairs }
+    // C12: a third of the invocations come out of a `macro_rules!` wrapper that is given the names
+    let mr_wrap = which == Which::C12 && rb(rng, 0.35);
+    ChainProg { fam, mac: mac.to_string(), branches, nestings, handler, options, nest_pairs, mr_wrap }
 }
 
 fn strategy(i: usize, which: Which) -> impl Strategy<Value = ChainProg> {
@@ -489,7 +493,22 @@ fn hoist_ref(ops: &mut Vec<COp>, defs: &mut Vec<String>, counter: &mut usize) {
 /// the macro side of a program as `fn case_<idx>_<suffix>() -> String`
 fn mac_fn(p: &ChainProg, idx: usize, suffix: &str) -> String {
     let kind = macro_kind(&p.mac);
-    let mut body: Vec<String> = p.branches.iter().map(render_branch_macro).collect();
+    let wrap = p.mr_wrap && p.branches.iter().any(|b| b.let_name.is_some());
+    let mut passed: Vec<String> = Vec::new();
+    let mut body: Vec<String> = p
+        .branches
+        .iter()
+        .enumerate()
+        .map(|(bi, b)| match (&b.let_name, wrap) {
+            (Some((n, m)), true) => {
+                let mut q = b.clone();
+                q.let_name = Some((format!("$p{}", bi), *m));
+                passed.push(n.clone());
+                render_branch_macro(&q)
+            }
+            _ => render_branch_macro(b),
+        })
+        .collect();
     if let Some((k, text)) = &p.handler {
         body.push(format!("{} => {}", k, text));
     }
@@ -500,10 +519,18 @@ fn mac_fn(p: &ChainProg, idx: usize, suffix: &str) -> String {
             mac.push_str(&format!("    {}\n", l));
         }
     }
-    if kind.is_async {
-        mac.push_str(&format!("    block_on(async {{\n        let __r = ::join::{}! {{\n            {}{}\n        }}.await;\n        format!(\"{{:?}}\", __r)\n    }})\n}}\n", p.mac, p.options, body.join(",\n            ")));
+    let invocation = format!("::join::{}! {{\n            {}{}\n        }}", p.mac, p.options, body.join(",\n            "));
+    let invocation = if wrap {
+        let params: Vec<String> = p.branches.iter().enumerate().filter(|(_, b)| b.let_name.is_some()).map(|(bi, _)| format!("$p{}:ident", bi)).collect();
+        mac.push_str(&format!("    macro_rules! __jw {{ ({}) => {{ {} }} }}\n", params.join(", "), invocation));
+        format!("__jw!({})", passed.join(", "))
     } else {
-        mac.push_str(&format!("    let __r = ::join::{}! {{\n        {}{}\n    }};\n    format!(\"{{:?}}\", __r)\n}}\n", p.mac, p.options, body.join(",\n        ")));
+        invocation
+    };
+    if kind.is_async {
+        mac.push_str(&format!("    block_on(async {{\n        let __r = {}.await;\n        format!(\"{{:?}}\", __r)\n    }})\n}}\n", invocation));
+    } else {
+        mac.push_str(&format!("    let __r = {};\n    format!(\"{{:?}}\", __r)\n}}\n", invocation));
     }
     mac
 }
@@ -909,7 +936,7 @@ pub fn run(id: &str, tier: &str, seed: u64) -> i32 {
         Which::C01 => "programs: typed chains (random walk over i64 / usize / bool / () / Option / Result<_, i64> / Vec / tuples / iterators, nesting <= 3), 1-3 independent chains per invocation, length 1-8 plus closing; program i is forced to contain operator spelling i mod 22 and uses macro name i mod 12 (async macros: half sync chains closed with `-> ready`, half chains over real futures and streams - FutureExt / TryFutureExt / StreamExt / TryStreamExt methods incl. `^^>` of futures of futures and streams of streams, `->` receiving the future itself, `~` where a step ends in a future; `??` meaning `.inspect`); operands fully typed, in varied shapes (call returning a closure, typed closure, closure with return type, parenthesised, macro call, block capture), `~` at random positions in the non-try sync macros; inputs: 8 boundary seeds + proptest-free hash-derived seeds building the initial values (None / Err / empty and non-empty vectors included). Oracle: differential against the documented method chain with the same operand text compiled in the same binary - Debug of the result, ordered callback-invocation trace (per branch when branches run on threads), multiset of all events; the macro side not compiling while the reference side does is a violation, the reverse is a generator bug (exit 2). Non-trivial = >= 2 operators and >= 1 callback invoked on that input",
         Which::C10 => "chain stage: typed chains as in C01 (all 22 operator spellings forced in turn, all 12 macro names) with block captures on 35 % of the operands and the clone- and drop-counting value type `Ck` in half of the scalar positions (fold / try_fold initial values, iterator items, Option / Result payloads); oracle against the documented chain compiled in the same binary: equal multiset of evaluation events (every operand expression and capture once, every callback as often as the std method calls it - per element for iterator callbacks), equal number of clones of counted values, no counted value alive after the result is dropped. Non-trivial = >= 2 callbacks invoked and >= 1 capture",
         Which::C07 => "bounds stage: typed chains with 2-4 branches under the eight thread- and task-spawning macro names whose values include `Sn` (holds a Cell: Send but not Sync) in half of the scalar positions; the reference side passes every branch through `require_thread(move || ..)` / `require_task(..)` (FnOnce / Future + Send + 'static - exactly what the README documents for spawning); oracle: the macro side compiles whenever the reference does, and both give the same result and per-branch callback traces. Non-trivial = >= 2 operators and >= 1 callback invoked",
-        Which::C12 => "chain stage: typed chains under all 12 macro names in which 85 % of the branches carry `let name =` / `let mut name =` on the macro side only, 60 % of them with an initial value that binds weaker than a method call (`a + b`, `-x`, `!b`, `x as T`, `a == 2`); metamorphic oracle: the named program equals the documented chain written without any name (result, callback traces, event multiset). Non-trivial = >= 2 operators and >= 1 callback invoked",
+        Which::C12 => "chain stage: typed chains under all 12 macro names in which 85 % of the branches carry `let name =` / `let mut name =` on the macro side only, 60 % of them with an initial value that binds weaker than a method call (`a + b`, `-x`, `!b`, `x as T`, `a == 2`); every fifth name is a raw identifier, and a third of the invocations are produced by a `macro_rules!` wrapper that receives the names as `ident` metavariables (the names then carry the caller's hygiene); metamorphic oracle: the named program equals the documented chain written without any name (result, callback traces, event multiset). Non-trivial = >= 2 operators and >= 1 callback invoked",
         Which::C17 => "nesting stage: typed chains under all 12 macro names in which 45 % of the callback operands are closures around a nested macro invocation (any of the 12 names, chosen by the type the operand must return; async ones driven by a no-op-waker poll loop), block captures that evaluate a nested invocation, initial values that are macro invocations, and (40 % of the programs) a then / map / and_then handler whose body is a nested invocation over the results; nested bodies are generated by the same chain generator, recursively to depth 3 (wrappers, captures, further nestings inside); a quarter of the programs are 'shadow' programs instead: 2-4 branches with `let` names, locals of the calling function spelled the same, and a handler that mentions them (it must see the caller's locals; the control spells the `let` names differently). Oracle (metamorphic + differential): the outer macro against the documented chain with the same operand text - so every nested invocation is evaluated once inside a macro expansion and once in plain Rust - equal results, callback traces and event multisets. Non-trivial = >= 2 operators and >= 1 callback invoked; classes count nestings by place, inner macro and depth",
         Which::C19 => "bounds stage: typed chains under join! / try_join! / join_async! / try_join_async! with 1-7 branches whose values include `Ns` (holds an Rc: neither Send nor Clone) and `Mv` (move-only) in 60 % of the scalar positions, and half of whose branches borrow - shared (`&Vec` iterated) or mutably (`iter_mut` with a callback that changes the element in place) - from locals of the calling function; 45 % of the programs have a then / map / and_then handler that borrows a local of the caller (async then / and_then: the future it returns holds the borrow); oracle: the macro side compiles whenever the documented chain compiles (a new Clone / Send / 'static requirement is a compile error on the macro side only) and both give the same result and callback traces. Non-trivial = >= 2 operators and >= 1 callback invoked",
         Which::C11 => "chain stage: typed chains in which program i is forced to contain hoistable operator i mod 18 (the 14 expression-operand operators, `^@` / `?^@` twice as often) with block operands on 60 % of the operand positions - both operands of fold / try_fold, operands inside nested wrappers, several per branch and step; oracle: per branch the sequence of capture evaluations equals the written (position) order, each exactly once. Non-trivial = >= 2 captures evaluated",
@@ -940,6 +967,12 @@ pub fn run(id: &str, tier: &str, seed: u64) -> i32 {
             tally(&b.ops, &mut prev, &mut ev.classes, 0);
         }
         *ev.classes.entry(format!("macro {}", p.mac)).or_default() += 1;
+        if p.mr_wrap && p.branches.iter().any(|b| b.let_name.is_some()) {
+            *ev.classes.entry("invocation produced by a macro_rules! wrapper that is given the `let` names".into()).or_default() += 1;
+        }
+        if p.branches.iter().any(|b| b.let_name.as_ref().map(|n| n.0.starts_with("r#")).unwrap_or(false)) {
+            *ev.classes.entry("raw identifier as `let` name".into()).or_default() += 1;
+        }
         if let Some((k, t)) = &p.handler {
             *ev.classes.entry(format!("handler {}{}", k, if t.contains("&__hl") { " borrowing a local of the caller" } else if t.contains("((nm") { " mentioning locals of the caller that are spelled like the `let` names" } else { "" })).or_default() += 1;
         }
